@@ -403,4 +403,19 @@ pub mod c10 {
         peaks.retain_and_sort();
         n + peaks.into_vec().len()
     }
+
+    /// the shrunk list lives in a field: the stale count is observed by the NEXT call
+    pub struct Carry {
+        pub sorted: CompactVec,
+    }
+    impl Carry {
+        pub fn step(&mut self, fresh: &[f64]) -> usize {
+            let seen = self.sorted.len();
+            for v in fresh.iter().skip(seen) {
+                self.sorted.push(*v);
+            }
+            self.sorted.retain_and_sort();
+            seen
+        }
+    }
 }
